@@ -328,7 +328,7 @@ def gen(tier, rng):
     yield from cross_tape_cases()
     yield from exhaustive(SCALAR, 5 if quick else 6, 0)
     yield from exhaustive(CONT, 4 if quick else 5, 0, (0, 1))
-    yield from exhaustive(CONT, 5 if quick else 6, 1, (0,) if quick else (0, 1))
+    yield from exhaustive(CONT, 5, 1, (0,) if quick else (0, 1))
     yield from exhaustive(BOTH, 3 if quick else 4, 0, (1,))
     for _ in range(6000 if quick else 60000):
         yield random_script(rng, 60 if rng.random() < 0.3 else 25)
